@@ -76,11 +76,19 @@ def build_harness(tags, race=False):
         name = "fgh-%s-%s%s" % (key, tags.replace(" ", "_"), "-race" if race else "")
         out = os.path.join(CACHE, name)
         if os.path.exists(out):
+            try:
+                os.utime(out, None)  # keep binaries that are in use fresh
+            except OSError:
+                pass
             return out, None
-        for f in os.listdir(CACHE):  # stale binaries
+        now = time.time()
+        for f in os.listdir(CACHE):  # stale binaries: only ones no check has used for 90 minutes (a concurrent
+            # check on an earlier tree may still be running its binary)
             if f.startswith("fgh-") and not f.startswith("fgh-" + key):
+                fp = os.path.join(CACHE, f)
                 try:
-                    os.remove(os.path.join(CACHE, f))
+                    if now - os.path.getmtime(fp) > 5400:
+                        os.remove(fp)
                 except OSError:
                     pass
         hdir = os.path.join(V, "harness")
